@@ -149,6 +149,10 @@ def sensitivity(a):
         shutil.rmtree(scratch, ignore_errors=True)
     print("selftest sensitivity: %d/%d caught" % (
         sum(1 for r in rows if r[2]), len(rows)))
+    if not a.props:
+        with open(os.path.join(VERIF, "mutants", "results.json"), "w") as f:
+            json.dump([{"patch": r[0], "check": r[1], "caught": r[2],
+                        "wall_s": round(r[3])} for r in rows], f, indent=1)
     return 1 if failures else 0
 
 
